@@ -9,7 +9,7 @@ TRUSTED_COMMON = [
 from engproj import compare_lines
 
 def eng(keys):
-    return lambda case, impl, model: compare_lines(impl, model, keys)
+    return lambda case, impl, model: compare_lines(impl, model, keys, long_lived=case.startswith('mode=long'))
 
 ENGINE_TRUSTED = [
     "text/template is modelled for literal text and {{.name}} placeholders only (missingkey=error); generated inputs never contain '{' (an error prefix quoting such input would be parsed as a template action)",
